@@ -494,6 +494,12 @@ func (pe *PolicyEngine) insertAdminNetworkPolicy(anp *apisv1a.AdminNetworkPolicy
 	}
 	pe.adminNetpolsMap[anp.Name] = true
 	pe.sortedAdminNetpols = append(pe.sortedAdminNetpols, (*k8s.AdminNetworkPolicy)(anp))
+	// keep the list sorted by priority (and the priorities validated) after every insertion,
+	// so that the answers do not depend on the order in which the policies were inserted
+	if err := pe.sortAdminNetpolsByPriority(); err != nil {
+		_ = pe.deleteAdminNetworkPolicy(anp) // roll back the insertion of the conflicting policy
+		return err
+	}
 	return nil
 }
 
